@@ -18,14 +18,18 @@ import (
 
 // tracks Policer's check progress.
 type nodeCache struct {
-	nodes   map[uint64]bool
-	metrics MetricsCollector
+	nodes map[uint64]bool
+	// nodes under maintenance: assumed to hold the object (so that no new
+	// replicas are created), but never confirmed to.
+	unchecked map[uint64]struct{}
+	metrics   MetricsCollector
 }
 
 func newNodeCache(metrics MetricsCollector) *nodeCache {
 	return &nodeCache{
-		nodes:   make(map[uint64]bool),
-		metrics: metrics,
+		nodes:     make(map[uint64]bool),
+		unchecked: make(map[uint64]struct{}),
+		metrics:   metrics,
 	}
 }
 
@@ -42,6 +46,23 @@ func (n *nodeCache) submitReplicaCandidate(node netmap.NodeInfo) {
 // submits storage node as a current object replica holder.
 func (n *nodeCache) submitReplicaHolder(node netmap.NodeInfo) {
 	n.set(node, true)
+}
+
+// submits storage node under maintenance: it is treated as a replica holder,
+// but an unconfirmed one.
+func (n *nodeCache) submitMaintenanceNode(node netmap.NodeInfo) {
+	n.set(node, true)
+	n.unchecked[node.Hash()] = struct{}{}
+}
+
+// checks whether the node is confirmed to hold the object: its header was
+// received from the node or the object was successfully replicated to it.
+func (n *nodeCache) confirmedHolder(node netmap.NodeInfo) bool {
+	h := node.Hash()
+	if _, ok := n.unchecked[h]; ok {
+		return false
+	}
+	return n.nodes[h]
 }
 
 // processStatus returns current processing status of the storage node
@@ -76,8 +97,8 @@ func (n *nodeCache) SubmitSuccessfulReplication(node netmap.NodeInfo) {
 // checks whether at least one remote container node holds particular object
 // replica (including as a result of successful replication).
 func (n nodeCache) atLeastOneHolder() bool {
-	for _, v := range n.nodes {
-		if v {
+	for h, v := range n.nodes {
+		if _, unchecked := n.unchecked[h]; v && !unchecked {
 			return true
 		}
 	}
@@ -262,7 +283,7 @@ func (p *Policer) processNodes(ctx context.Context, plc *processPlacementContext
 		// prevent spam with new replicas.
 		// However, additional copies should not be removed in this case,
 		// because we can remove the only copy this way.
-		plc.checkedNodes.submitReplicaHolder(node)
+		plc.checkedNodes.submitMaintenanceNode(node)
 		shortage--
 		uncheckedCopies++
 
@@ -279,6 +300,8 @@ func (p *Policer) processNodes(ctx context.Context, plc *processPlacementContext
 		//   - `LOCK` object removal is a prohibited action in the GC.
 		shortage = uint32(len(nodes))
 	}
+
+	required := shortage
 
 	// candidates collects nodes that don't hold the object and can receive a
 	// replica. Used both for shortage replication (shortage > 0) and for rebalancing
@@ -366,12 +389,22 @@ func (p *Policer) processNodes(ctx context.Context, plc *processPlacementContext
 		)
 
 		p.tryToReplicate(ctx, plc.object.Address, uint32(len(candidates)), candidates, plc.checkedNodes)
-	} else if uncheckedCopies > 0 {
-		// If we have more copies than needed, but some of them are from the maintenance nodes,
-		// save the local copy.
-		plc.needLocalCopy = true
-		p.log.Debug("some of the copies are stored on nodes under maintenance, save local copy",
-			zap.Int("count", uncheckedCopies))
+	}
+
+	if uncheckedCopies > 0 {
+		// Some of the copies are assumed on maintenance nodes. Save the local copy
+		// unless enough copies are confirmed (by header or successful replication).
+		var confirmed uint32
+		for i := range nodes {
+			if plc.checkedNodes.confirmedHolder(nodes[i]) {
+				confirmed++
+			}
+		}
+		if confirmed == 0 || plc.localNodeInContainer && confirmed < required {
+			plc.needLocalCopy = true
+			p.log.Debug("some of the copies are stored on nodes under maintenance, save local copy",
+				zap.Int("count", uncheckedCopies))
+		}
 	}
 }
 
